@@ -210,8 +210,8 @@ PROPS = {
                     "createBuckets, per-bucket SST, ingest), the batch compiler (any batch size and execution order, via C15's "
                     "batch_refines) and the CDB writer, all over the real codec's per-line records: parse_order_irrelevant, "
                     "createBuckets_partition / _no_split (for every minBucketSize, maxBucketNum >= 1: contiguous, covering, "
-                    "non-empty, never separating equal keys), builder_eq_spec, batches_eq_spec_partial (+ proved negation of the "
-                    "full statement: BatchNumParallel = 0 hangs, known finding), cdb_eq_spec, compile_error_iff, "
+                    "non-empty, never separating equal keys), builder_eq_spec, batches_eq_spec (every batch size, every "
+                    "BatchNumParallel incl. 0 = unlimited - a hang before the repair -, every execution order), cdb_eq_spec, compile_error_iff, "
                     "compile_config_independent. Correspondence: real CreateCDB / CompileToRDB (v1/v2 x builder/batches x "
                     "BatchSize x BatchNumParallel x NumCPU) on generated files incl. one > 30000 (thorough > 70000) records so the "
                     "builder splits buckets and files with a rejected line; all dumps agree with each other, the model and "
@@ -226,21 +226,27 @@ PROPS = {
         "rule": "6 small files x 3 codec classes (two with a rejected line at first/middle/last position) + one file of ~36000 "
                 "records (thorough: 60+ files and one of ~75000 records), each really compiled under 6-12 configurations; "
                 "distinct = distinct (class, configuration set, digest)",
-        "assumptions": ["BatchNumParallel >= 1 or fewer records than BatchSize (known finding C07-batch-hang)"],
+        "assumptions": ["values shorter than 2^32 bytes (SmallStream)"],
     },
     "C01": {
         "manifest": {
             "text": "Lean 4: Spec/Answer.lean states the property over records (REFUSED / referral / authoritative answer, "
                     "wildcard scope, NXDOMAIN, SOA in empty answers); Model/Codec.lean + Model/Serve.lean transcribe the line codec "
-                    "and the query path; theorems in Props/C01.lean tie extracted constants to the documented defaults "
-                    "(facts_match_spec, default_ttl_*), prove the row round trip (extractRR_putrrhead), the four sentences of the "
-                    "statement on the Spec, and the refinement of the v1 walk to the Spec for every store representing a "
-                    "well-formed record set (see the theorem list in the evidence). Correspondence on every run: generated data "
-                    "files compiled by the real cdb/rdb compilers into CDB (combined and per-family prefix sets), RocksDB v1 and "
-                    "v2, queried through ServeDNSWithRCODE; implementation = model = Spec per query (address records "
-                    "relationally), plus pairwise agreement of the four storage configurations.",
-            "note": "Partial: typed-RR (un)packing by miekg is compared on the wire, not proved; the refinement theorem covers "
-                    "the v1 layouts (v2 equivalence is C02); malformed rdata excluded by WellFormed.",
+                    "and the query path. Props/C01.lean (29 theorems): extracted constants = documented defaults "
+                    "(facts_match_spec, spec_defaults_match_facts, default_ttl_*, name_expansion_* by kernel evaluation of the model "
+                    "codec); row round trip extractRR_putrrhead; the four sentences of the statement as corollaries of Spec.answer "
+                    "(spec_refused_iff, spec_nxdomain_iff, spec_no_records_iff, spec_empty_auth_has_soa, spec_wildcard_scope, "
+                    "spec_referral); refinement serve_v1_refines_spec: on any store representing a WellFormed record list under v1 "
+                    "keys (CDB, RocksDB v1), for every lower-case storable query name, every type (DS included), class, answer limit "
+                    "and client location the handler model equals Spec.answer in all four sections; C02's serve_v2_eq_v1 carries it "
+                    "to v2 keys. Correspondence on every run: generated data files compiled by the real cdb/rdb compilers into CDB "
+                    "(combined and per-family prefix sets), RocksDB v1 and v2, queried through ServeDNSWithRCODE; implementation = "
+                    "model = Spec per query (sections as RR sets, address records relationally), plus pairwise agreement of the "
+                    "four storage configurations.",
+            "note": "Partial: forced hypotheses SoaHasNs, NsParse, TargetsOK (additional-section targets lower-case and distinct); "
+                    "Spec.answer's invariance under the reader's tagged-rows-first order (viewSort) and 'the real codec's output "
+                    "Represents the file' are not proved (checked by the correspondence); typed-RR (un)packing by miekg is compared "
+                    "on the wire; files violating SoaHasNs get no Spec verdict.",
         },
         "trusted": COMMON_TRUSTED + [
             "miekg/dns packing/unpacking of typed RRs and name compression (responses compared on the wire, rdata as re-packed bytes)",
@@ -249,21 +255,28 @@ PROPS = {
         ],
         "rule": "40 (thorough 1500) generated data files (1-3 zones, nested zones, delegations with in/out-of-zone glue, all line "
                 "types with optional fields, wildcards, escapes, half of them with locations/maps/subnets) x 40 queries built "
-                "from the file's own names (exact, ancestors, children, non-wild-safe, case-flipped, unrelated, root) x 15 "
-                "qtypes x classes x max-answer 1-4 on 4 storage configurations; distinct = distinct (op, output shape)",
+                "from the file's own names (exact, ancestors, children, non-wild-safe labels at the leaf and in the middle of the "
+                "absent part, case-flipped, unrelated, root) x 15 qtypes x classes x max-answer 1-4 on 4 storage configurations; "
+                "16 default-TTL lines; distinct = distinct (op, output shape)",
         "assumptions": ["data files satisfy WellFormed (DESIGN.md section 6 C01)"],
     },
     "C02": {
         "manifest": {
-            "text": "Lean 4: order lemmas for reversed-name keys (ancestor below descendant regardless of location, sandwich "
-                    "lemma, common-label-prefix arithmetic), equivalence of the v2 closest-key map lookup with the label-by-label "
-                    "lookup (incl. wildcard map at the queried name, root wildcard), and of the v2 closest-key search "
-                    "(findGo) with the v1 walk as far as proved (theorem list in the evidence). Correspondence on every run: the "
-                    "four real storage configurations must agree pairwise on every query (this needs no model) and with model "
-                    "and Spec, on files with adversarial key neighbourhoods (sibling labels that are byte-prefixes of each "
-                    "other, the same name in several locations, deep names, maps in every shape).",
-            "note": "Partial: see the theorem list for which equivalences are proved outright and which under hypotheses; compiler "
-                    "option independence is C07.",
+            "text": "Lean 4 (Props/C02.lean, 25 theorems): order lemmas for reversed-name keys (O1 ancestor below descendant "
+                    "regardless of location, O3 sandwich, O4 common-label-prefix arithmetic), findMapSorted_eq_findMapV1 (closest-key "
+                    "map lookup = label-by-label lookup, incl. wildcard map at the queried name and the root wildcard), "
+                    "isAuthoritativeV2_eq_V1 (literal equality of ns / auth / zone cut), findAnswerV2_eq_V1(_at_cut), "
+                    "findSOA/getNs/rowsOf_v2_eq_v1 and the end-to-end serve_v2_eq_v1: for stores representing the same rows under "
+                    "v2 and v1 keys, every query name, type, class, limit and client location gets the same reply (all sections) "
+                    "from the two handler models; v2_store_represented / serve_v2_eq_v1Of instantiate it for every canonical v2 "
+                    "store. CDB and RocksDB v1 share the reader (equal by construction of the model). Correspondence on every run: "
+                    "the four real storage configurations must agree pairwise on every query (this needs no model) and with model "
+                    "and Spec, on files with adversarial key neighbourhoods (sibling labels that are byte-prefixes of each other, "
+                    "the same name in several locations, deep names, maps in every shape, non-wild-safe labels anywhere in the "
+                    "jumped part of the name).",
+            "note": "Partial: forced hypotheses RowsOKAt (visible rows not truncated) and TargetsOKAt (NS/MX target labels <= 64 "
+                    "bytes; serve_v2_eq_v1_without_targets_false shows it cannot be dropped); per-request context cache and RocksDB "
+                    "iterators are covered by the correspondence only; compiler option independence is C07.",
         },
         "trusted": COMMON_TRUSTED + [
             "miekg/dns packing/unpacking of typed RRs and name compression (responses compared on the wire, rdata as re-packed bytes)",
